@@ -150,14 +150,25 @@ def make_cases(seed, tier):
 
 # alg-yescrypt-opt.c has three bodies selected by the compiler's target: SSE2 (every default x86-64 build),
 # AVX (distributions building for x86-64-v3) and the portable C one (every other architecture)
-ISA = {"avx2": "-mavx2", "portable": "-mno-sse2 -mno-sse", "openmp": "-fopenmp", "ndebug": "-DNDEBUG (whole library)"}
+ISA = {"avx2": "-mavx2", "portable": "-mno-sse2 -mno-sse", "openmp": "-fopenmp", "ndebug": "-DNDEBUG (whole library)",
+       "openmp-1-thread": "-fopenmp, OMP_NUM_THREADS=1", "openmp-2-thread": "-fopenmp, OMP_NUM_THREADS=2"}
 ISA_EXE = {}
+
+
+_ENV_WORKERS = {}
 
 
 def isa_workers():
     out = {}
     for k, exe in ISA_EXE.items():
         out[k] = pool.worker(exe)
+        if k == "openmp":
+            # fewer threads than lanes (a small container, OMP_NUM_THREADS=1): one thread serves several lanes in turn
+            for nthr in ("1", "2"):
+                key = (exe, nthr)
+                if key not in _ENV_WORKERS:
+                    _ENV_WORKERS[key] = pool.Worker(exe, env={"OMP_NUM_THREADS": nthr})
+                out["openmp-%s-thread" % nthr] = _ENV_WORKERS[key]
     return out
 
 
@@ -167,7 +178,7 @@ NDEBUG_EXE = []
 def build_isa(tree):
     NDEBUG_EXE.append(tree.program("ndebug", "vw.c"))
     for k, fl in ISA.items():
-        if k == "ndebug":
+        if k == "ndebug" or k.startswith("openmp-"):
             continue
         o = tree.variant_object("opt", "alg-yescrypt-opt.c", "isa-" + k, None, fl)
         ISA_EXE[k] = tree.program("opt", "vw.c", name="vw-opt-" + k, replace={"alg-yescrypt-opt.o": o},
